@@ -342,14 +342,16 @@ PROPS['C14'] = C14Spec(
     'per seeded scenario (instance x criteria x time limit) a fault-free run '
     'fixes the number K of back-end solves; then every single fault (round '
     '1..K x {Infeasible, Unbounded, Undefined, Not Solved, time-limit stop '
-    'with incumbent, without incumbent} x {transient, persistent} x value '
+    'with incumbent, without incumbent, crash of the solver process} x '
+    '{transient, persistent} x value '
     'mode) is injected, plus every pair of faults when K = 2 (K <= 3 in '
     'the thorough tier) and a seeded sample of pairs otherwise, each under a '
     'seeded clock plan; non-trivial = some round did not end in a proven '
     'optimum; distinct = distinct event-log digests among those',
     {'quick': 1200, 'thorough': 10000},
     required_probes=('cut-short:tl-incumbent', 'cut-short:tl-no-incumbent',
-                     'cut-short:status:Not Solved', 'cut-after-first-round'))
+                     'cut-short:status:Not Solved', 'cut-after-first-round',
+                     'cut-short:crash'))
 PROPS['C14'].oracle = oracles.c14
 
 
@@ -507,11 +509,15 @@ PROPS['C18'] = C18Spec(
     'seeded API histories of length 2..12 over {solve, get_results, '
     'get_results_short, get_results_long, get_debug, idle gap} starting with '
     'solve, LP and brute-force mode, back end drawing a fresh optimal '
-    'tie-break on every solve; non-trivial = history with a second solve or '
+    'tie-break on every solve; one history in four gives its solves '
+    'different limits (some binding) and lets a later solve crash; '
+    'non-trivial = history with a second solve or '
     'a repeated getter; distinct = distinct event-log digests among those',
     {'quick': 20000, 'thorough': 200000},
     required_probes=('different-matchings-across-solves',
-                     'repeated-getter-calls', 'bf'))
+                     'repeated-getter-calls', 'bf',
+                     'full-solve-after-cut-short-solve',
+                     'full-solve-after-crashed-solve'))
 PROPS['C18'].oracle = oracles.c18
 
 
@@ -592,13 +598,15 @@ PROPS['C06'] = C06Spec(
     'answers each solve with a seeded assignment respecting acceptability and '
     'project/lecturer upper quotas only (half stable, half unstable by the '
     'reference), 2..8 assignments per loaded instance through repeated '
-    'solve(); one run in four is a fault-free -stab run (corollary); '
+    'solve(), plus direct calls of Model.check_stability between solves '
+    'and before the first; one run in four is a fault-free -stab run '
+    '(corollary); '
     'non-trivial = run containing at least one assignment with a blocking '
     'pair; distinct = distinct event-log digests among those',
     {'quick': 20000, 'thorough': 200000},
     required_probes=('blocking:3a', 'blocking:3b-in', 'blocking:3b-pref',
                      'blocking:3c', 'full-and-empty-agent',
-                     'fault-free-stab'))
+                     'fault-free-stab', 'direct-check_stability-call'))
 PROPS['C06'].oracle = oracles.c06
 
 
